@@ -1,5 +1,176 @@
-From Coq Require Import String Ascii.
-From Coq Require Import NArith ZArith Bool List Lia.
+(* C12 -- lemmas about the parser model: totality (every dispatch rule has an action, structural recursion),
+   the per-option steps and the refinement to the documented grammar, the runner on a rejected vector. *)
+From Coq Require Import NArith ZArith Bool List Lia ZifyBool Arith.
 From CppUVerif Require Import gen.Gen_C12 lib.Str C12_Model.
 Import ListNotations.
-Lemma stub : valid 0 [] = true. Proof. reflexivity. Qed.
+Local Open Scope N_scope.
+
+(* ================================================================ totality *)
+Lemma set_repeat_count_known c a nx : set_repeat_count c a nx <> HUnknown.
+Proof. unfold set_repeat_count. destruct (Nat.ltb 2 (length a)); [discriminate|]. destruct nx; discriminate. Qed.
+Lemma set_shuffle_known tm c a nx : set_shuffle tm c a nx <> HUnknown.
+Proof.
+  unfold set_shuffle. destruct (Nat.ltb 2 (length a)).
+  - destruct (atou (skipn 2 a) =? 0); discriminate.
+  - destruct nx as [n|].
+    + destruct (atou n =? 0); [|discriminate]. match goal with |- (if ?b then _ else _) <> _ => destruct b end; discriminate.
+    + match goal with |- (if ?b then _ else _) <> _ => destruct b end; discriminate.
+Qed.
+Lemma add_filter_known g s i n c a nx : add_filter g s i n c a nx <> HUnknown.
+Proof. unfold add_filter. destruct (param_field n a nx). discriminate. Qed.
+Lemma add_group_dot_name_known s i n c a nx : add_group_dot_name s i n c a nx <> HUnknown.
+Proof.
+  unfold add_group_dot_name. destruct (param_field n a nx) as [v u].
+  destruct (split_incl 46 v) as [|t0 [|t1 [|t2 r]]]; discriminate.
+Qed.
+Lemma add_verbose_test_known n c a nx : add_verbose_test n c a nx <> HUnknown.
+Proof. unfold add_verbose_test. destruct (param_field n a nx). discriminate. Qed.
+Lemma set_output_type_known n c a nx : set_output_type n c a nx <> HUnknown.
+Proof.
+  unfold set_output_type. destruct (param_field n a nx) as [v u]. destruct v; [discriminate|].
+  destruct (lookup_output c12_outputs (n0 :: v)); discriminate.
+Qed.
+Lemma set_package_name_known n c a nx : set_package_name n c a nx <> HUnknown.
+Proof. unfold set_package_name. destruct (param_field n a nx). discriminate. Qed.
+
+(* every rule of the dispatch table re-read from the source has an action in the model *)
+Lemma action_known r : In r c12_dispatch -> forall tm c a nx, action tm c (fst r) (snd r) a nx <> HUnknown.
+Proof.
+  intros H tm c a nx. unfold c12_dispatch in H.
+  repeat (destruct H as [H|H]; [subst r; cbn [fst snd];
+    first [ discriminate
+          | apply set_repeat_count_known | apply set_shuffle_known | apply add_filter_known | apply add_group_dot_name_known
+          | apply add_verbose_test_known | apply set_output_type_known | apply set_package_name_known
+          | (cbv [action key match_eqb bytes_eqb N.eqb Pos.eqb andb]; destruct (plugin_accepts a); discriminate) ] |]).
+  destruct H.
+Qed.
+Lemma first_match_in tbl a r : first_match tbl a = Some r -> In r tbl.
+Proof.
+  induction tbl as [|x t IH]; cbn; [discriminate|]. destruct (rule_matches x a).
+  - intro E. inversion E. left. reflexivity.
+  - intro E. right. apply IH. exact E.
+Qed.
+Lemma handle_known tm c a nx : handle tm c a nx <> HUnknown.
+Proof.
+  unfold handle. destruct (first_match c12_dispatch a) as [[k lit]|] eqn:E; [|discriminate].
+  apply first_match_in in E. apply (action_known (k, lit) E).
+Qed.
+(* the loop is a structural recursion over the remaining arguments (every iteration consumes one or two of them); its result
+   is a rejection or a configuration, never the "rule without action" value *)
+Lemma parse_args_known_n n : forall tm c args, (length args <= n)%nat -> parse_args tm c args <> Unknown.
+Proof.
+  induction n as [|n IH]; intros tm c args L.
+  - destruct args; [discriminate | cbn in L; lia].
+  - destruct args as [|a rest]; [discriminate|]. cbn [parse_args]. cbn in L.
+    pose proof (handle_known tm c a (hd_error rest)) as K.
+    destruct (handle tm c a (hd_error rest)) as [h|c' [|]|]; [discriminate | | | congruence].
+    + destruct rest as [|b rest']; [discriminate|]. apply IH. cbn in L. lia.
+    + apply IH. lia.
+Qed.
+Lemma parse_total tm argv : (exists h, parse tm argv = Reject h) \/ (exists c, parse tm argv = Accept c).
+Proof.
+  pose proof (parse_args_known_n (length (tl argv)) tm default_config (tl argv) (le_n _)) as K. unfold parse.
+  destruct (parse_args tm default_config (tl argv)) as [h|c|] eqn:E; [| |congruence].
+  - left. exists h. reflexivity.
+  - right. exists c. reflexivity.
+Qed.
+
+(* ================================================================ string-helper facts used by the refinement *)
+Lemma find_idx_skip ch g : without ch g = true -> forall r, find_idx ch (g ++ r) = option_map (Nat.add (length g)) (find_idx ch r).
+Proof.
+  induction g as [|x g IH]; intros W r; cbn.
+  - destruct (find_idx ch r); reflexivity.
+  - cbn in W. apply andb_true_iff in W. destruct W as [W1 W2]. destruct (x =? ch); [discriminate|].
+    rewrite (IH W2). destruct (find_idx ch r); reflexivity.
+Qed.
+Lemma find_idx_hit ch g r : without ch g = true -> find_idx ch (g ++ ch :: r) = Some (length g).
+Proof. intro W. rewrite (find_idx_skip ch g W). cbn. rewrite N.eqb_refl. cbn. f_equal. lia. Qed.
+Lemma skipn_app_len {A} (g r : list A) : skipn (length g) (g ++ r) = r.
+Proof. induction g; cbn; auto. Qed.
+Lemma firstn_app_len {A} (g r : list A) : firstn (length g) (g ++ r) = g.
+Proof. induction g; cbn; [destruct r; reflexivity | f_equal; auto]. Qed.
+
+(* the group of "TEST(<group>, <name>)": from the first character up to the first comma *)
+Lemma verbose_group g r : without 44 g = true -> sub_from_till (at0 (g ++ 44 :: r)) 44 (g ++ 44 :: r) = g.
+Proof.
+  intro W. unfold sub_from_till, find_from. destruct g as [|x g].
+  - cbn. reflexivity.
+  - cbn [app at0 hd find_idx]. rewrite N.eqb_refl. cbn [skipn option_map].
+    change (x :: g ++ 44 :: r) with ((x :: g) ++ 44 :: r). rewrite (find_idx_hit 44 (x :: g) r W).
+    cbn [option_map Nat.add]. rewrite Nat.sub_0_r. apply firstn_app_len.
+Qed.
+(* the name: from the first comma up to the first closing bracket after it, minus the two characters ", " *)
+Lemma verbose_name g n : without 44 g = true -> without 41 n = true ->
+  skipn 2 (sub_from_till 44 41 (g ++ 44 :: 32 :: n ++ [41])) = n.
+Proof.
+  intros Wg Wn. unfold sub_from_till, find_from. rewrite (find_idx_hit 44 g _ Wg). rewrite skipn_app_len.
+  change (44 :: 32 :: n ++ [41]) with ((44 :: 32 :: n) ++ 41 :: []).
+  assert (W2 : without 41 (44 :: 32 :: n) = true) by (cbn; exact Wn).
+  set (w := 44 :: 32 :: n) in *. rewrite (find_idx_hit 41 w [] W2). cbn [option_map].
+  replace (length g + length w - length g)%nat with (length w) by lia.
+  rewrite firstn_app_len. reflexivity.
+Qed.
+
+(* split(".") of "<group>.<name>" *)
+Lemma split_go_plain d s : without d s = true -> s <> [] -> split_go d s = [s].
+Proof.
+  induction s as [|c r IH]; intros W NE; [congruence|]. cbn in W. apply andb_true_iff in W. destruct W as [W1 W2].
+  cbn. destruct (c =? d); [discriminate|]. destruct r as [|c2 r2]; [reflexivity|]. rewrite IH by (auto; discriminate). reflexivity.
+Qed.
+Lemma split_go_piece d g r : without d g = true -> split_go d (g ++ d :: r) = (g ++ [d]) :: split_go d r.
+Proof.
+  induction g as [|c g IH]; intro W; cbn.
+  - rewrite N.eqb_refl. reflexivity.
+  - cbn in W. apply andb_true_iff in W. destruct W as [W1 W2]. destruct (c =? d); [discriminate|]. rewrite (IH W2). reflexivity.
+Qed.
+Lemma split_group_dot_name g n : without 46 g = true -> without 46 n = true -> nonempty n = true ->
+  split_incl 46 (g ++ 46 :: n) = [g ++ [46]; n].
+Proof.
+  intros Wg Wn NE. unfold split_incl. destruct (g ++ 46 :: n) eqn:E; [destruct g; discriminate|]. rewrite <- E.
+  rewrite (split_go_piece 46 g n Wg). rewrite split_go_plain; [reflexivity | exact Wn |]. destruct n; [discriminate NE | discriminate].
+Qed.
+Lemma firstn_drop_last {A} (g : list A) (x : A) : firstn (length (g ++ [x]) - 1) (g ++ [x]) = g.
+Proof. rewrite app_length. cbn. replace (length g + 1 - 1)%nat with (length g) by lia. apply firstn_app_len. Qed.
+
+(* decimal numbers: 1..9 digits *)
+Lemma digits_val_fold ds : forallb is_digit ds = true -> forall acc, digits_val acc ds = fold_left (fun a d => a * 10 + (d - 48)) ds acc.
+Proof.
+  induction ds as [|d r IH]; intros D acc; cbn; [reflexivity|]. cbn in D. apply andb_true_iff in D. destruct D as [D1 D2].
+  rewrite D1. apply IH. exact D2.
+Qed.
+Lemma fold_bound ds : forallb is_digit ds = true -> forall acc, fold_left (fun a d => a * 10 + (d - 48)) ds acc < (acc + 1) * 10 ^ N.of_nat (length ds).
+Proof.
+  induction ds as [|d r IH]; intros D acc.
+  - cbn. lia.
+  - cbn [fold_left length]. cbn in D. apply andb_true_iff in D. destruct D as [D1 D2].
+    specialize (IH D2 (acc * 10 + (d - 48))). rewrite Nat2N.inj_succ, N.pow_succ_r'.
+    unfold is_digit in D1. eapply N.lt_le_trans; [exact IH|].
+    assert (acc * 10 + (d - 48) + 1 <= (acc + 1) * 10) by lia.
+    replace ((acc + 1) * (10 * 10 ^ N.of_nat (length r))) with ((acc + 1) * 10 * 10 ^ N.of_nat (length r)) by lia.
+    apply N.mul_le_mono_r. exact H.
+Qed.
+Lemma number_facts ds : number ds = true ->
+  size_of_int (atoi ds) = dec_value ds /\ atou ds = dec_value ds /\ dec_value ds <> 0 /\
+  exists d r, ds = d :: r /\ is_digit d = true.
+Proof.
+  unfold number. intro H. repeat (apply andb_true_iff in H; destruct H as [H ?]).
+  destruct ds as [|d r]; [discriminate H|]. clear H.
+  assert (Hd : is_digit d = true) by (cbn in H1; apply andb_true_iff in H1; tauto).
+  assert (B : dec_value (d :: r) < 1000000000).
+  { unfold dec_value. eapply N.lt_le_trans; [apply (fold_bound _ H1 0)|].
+    change ((0 + 1) * 10 ^ N.of_nat (length (d :: r))) with (1 * 10 ^ N.of_nat (length (d :: r))). rewrite N.mul_1_l.
+    change 1000000000 with (10 ^ 9). apply N.pow_le_mono_r; [lia|]. apply Nat.leb_le in H2. lia. }
+  assert (NS : is_space d = false) by (unfold is_digit in Hd; unfold is_space; lia).
+  assert (S1 : skip_spaces (d :: r) = d :: r) by (cbn; rewrite NS; reflexivity).
+  assert (SG : (d =? 45) || (d =? 43) = false) by (unfold is_digit in Hd; lia).
+  assert (SG2 : (d =? 45) = false) by (unfold is_digit in Hd; lia).
+  assert (DV : digits_val 0 (d :: r) = dec_value (d :: r)) by (apply digits_val_fold; exact H1).
+  repeat split.
+  - unfold atoi, atoi_digits. rewrite S1, SG, SG2, DV. unfold size_of_int.
+    rewrite Z.mod_small by lia. apply N2Z.id.
+  - unfold atou. rewrite S1, DV. apply N.mod_small. lia.
+  - apply negb_true_iff in H0. apply N.eqb_neq in H0. exact H0.
+  - exists d, r. split; [reflexivity | exact Hd].
+Qed.
+Lemma digit_cases d : is_digit d = true -> In d [48; 49; 50; 51; 52; 53; 54; 55; 56; 57].
+Proof. unfold is_digit. intro H. cbn. lia. Qed.
